@@ -363,7 +363,7 @@ func boundary(res *vlib.Result, seed uint64, keys map[string]struct{}) int {
 				return steps
 			}
 		}
-		if r.Chance(1, 3) {
+		for k := r.Pick(0, 0, 1, 2, 3); k > 0; k-- { // several registrations in a row after a removal
 			nf := m.freshFd(r) + 400000
 			for m.live[nf] != nil {
 				nf++
@@ -373,6 +373,18 @@ func boundary(res *vlib.Result, seed uint64, keys map[string]struct{}) int {
 				return steps
 			}
 			steps++
+		}
+		if i%7 == 3 { // spot-check entries on both sides of the row boundary
+			for _, idx := range []int{65530, 65535, 65536, 65537, 65540, len(m.order) - 1} {
+				if idx < len(m.order) {
+					if _, ok := m.live[m.order[idx]]; ok {
+						if f := m.checkFd(m.order[idx]); f != nil {
+							report("lookup-after-add", pos, f)
+							return steps
+						}
+					}
+				}
+			}
 		}
 	}
 	if f := m.full(); f != nil {
